@@ -38,6 +38,19 @@ class PSession(provider.Session):
         provider.Session.__init__(self, definition, inputs, with_model=with_model)
         self.project = project
 
+    def after_op(self):
+        """Called by the history generator after every provider operation: when nothing is in flight, poll a
+        restored copy of the engine (side-effect free) and record whether it offers anything."""
+        if not getattr(self, "probe", False) or self.inflight or not self.trace:
+            return
+        from orquesta import conducting
+        try:
+            c2 = conducting.WorkflowConductor.deserialize(self.impl.c.serialize())
+            offers = c2.get_next_tasks()
+            self.probes.append((len(self.trace) - 1, self.status(), bool(offers), c2.get_workflow_status()))
+        except Exception as e:
+            self.probes.append((len(self.trace) - 1, self.status(), None, type(e).__name__))
+
     def compare(self, a, b):
         pa, pb = self.project(a), self.project(b)
         if engine.dumps_sorted(pa) != engine.dumps_sorted(pb):
@@ -59,6 +72,7 @@ def _case(args):
         out["definition"], out["inputs"] = definition, inputs
         sess = PSession(definition, inputs, project, with_model=with_model)
         sess.case_seed, sess.fam = seed, fam
+        sess.probe, sess.probes = bool(fam.get("probe")), []
         oracle = progs.Oracle(seed, fam, per_task=bool(fam.get("per_task")))
         try:
             _CFG["history"](sess, rng, fam, oracle)
